@@ -35,6 +35,8 @@ RULE = ('grammar: recursive literal renderings (number forms, string prefixes/es
         'valid renderings, optionally nested in a container; every near-miss counts as '
         'non-trivial. Distinct = distinct (placement, text).')
 ASSUMPTIONS = ['ast.literal_eval is the definition of "what Python evaluates the text to"',
+               'texts with a bare CR and non-ASCII characters are out of domain (CPython 3.12.1 '
+               'tokenize raises UnicodeDecodeError on them)',
                'texts containing NUL are out of domain (CPython 3.12 tokenizer SystemError)',
                'texts for which Python itself raises TypeError (unhashable dict key) are out of '
                'domain: neither a literal nor one of the listed near-miss classes']
@@ -184,10 +186,17 @@ def check_grammar(case):
   return ok(labels, nt)
 
 
+BARE_CR = re.compile(r'\r(?!\n)')
+
+
 def check_nearmiss(case):
   text = case['text']
   if '\x00' in text:
     raise OutOfDomain('NUL')
+  if BARE_CR.search(text) and not text.isascii():
+    # CPython 3.12.1: tokenize raises UnicodeDecodeError for a bare CR followed by a non-ASCII
+    # character ('x = 1\rŠ'); an interpreter defect outside Gin
+    raise OutOfDomain('bare CR with non-ASCII text (CPython tokenizer defect)')
   src = 'c02probe.p = ' + text + '\n'
   labels = ['kind:nearmiss', 'mut:' + case.get('mutation', '?')]
   stmts = []
@@ -261,6 +270,23 @@ def check_nearmiss(case):
       last = m.end()
     text = ''.join(pieces) + text[last:]
     labels.append('nearmiss:with-reference')
+  # Trailing blank / whitespace-only lines belong to the file layout, not to the value text
+  # (ast.literal_eval calls a trailing "\n\t" an unexpected indent, and needs the newline after
+  # a trailing backslash): Python is asked about the text as is, and with trailing white space
+  # removed / a final newline added.
+  expected = None
+  for variant in (text, text.rstrip(' \t\r\n\f'), text + '\n', text.strip(' \t\r\n\f')):
+    try:
+      expected = ('ok', py_eval(variant))
+      break
+    except (TypeError, RecursionError, MemoryError):
+      break
+    except Exception:  # pylint: disable=broad-except
+      continue
+  if expected is not None:
+    require(typed(got_value) == typed(expected[1]), 'value-differs',
+            lambda: f'text {text!r}: Gin {b.value!r} / Python {expected[1]!r}')
+    return ok(labels + ['nearmiss:accepted-agrees'], True)
   try:
     expected = py_eval(text)
   except TypeError:
